@@ -12,6 +12,11 @@ for t, k in combos():
                            defines=['-DNBYTES=%d' % n] + FX, functions=['%s decoder of %s; asn_check_constraints; der_encode; free' % (k, t)],
                            inputs='%d arbitrary octets in an exact-size heap object, symbolic size 0..%d' % (n, n), bounds='input <= %d octets' % n,
                            exclude=EXC[k]))
+    n2 = 6 if n == 4 else 8
+    HARNESSES.append(typed(H, 'declong_%s_%s' % (t, k), 'typed/dec_arbitrary.c', t, k, tiers=('thorough',), leak=True,
+                           defines=['-DNBYTES=%d' % n2], functions=['%s decoder of %s; free' % (k, t)], timeout=1800, maxdeepen=3000,
+                           inputs='%d arbitrary octets in an exact-size heap object, symbolic size 0..%d' % (n2, n2), bounds='input <= %d octets' % n2,
+                           exclude=EXC[k]))
     HARNESSES.append(typed(H, 'decpost_%s_%s' % (t, k), 'typed/dec_arbitrary.c', t, k, tiers=('thorough',), leak=True,
                            defines=['-DNBYTES=%d' % n, '-DPOSTOPS'], functions=['%s decoder of %s, then asn_check_constraints, der_encode, free' % (k, t)],
                            inputs='%d arbitrary octets in an exact-size heap object, symbolic size' % n, bounds='input <= %d octets' % n))
